@@ -42,15 +42,25 @@ func main() {
 	}
 	switch os.Args[1] {
 	case "check":
-		os.Exit(cmdCheck(os.Args[2:]))
+		code := cmdCheck(os.Args[2:])
+		cleanupScratch()
+		os.Exit(code)
 	case "func":
-		os.Exit(cmdFunc(os.Args[2:]))
+		code := cmdFunc(os.Args[2:])
+		cleanupScratch()
+		os.Exit(code)
 	case "replay":
-		os.Exit(cmdReplay(os.Args[2:]))
+		code := cmdReplay(os.Args[2:])
+		cleanupScratch()
+		os.Exit(code)
 	case "selftest":
-		os.Exit(cmdSelftest(os.Args[2:]))
+		code := cmdSelftest(os.Args[2:])
+		cleanupScratch()
+		os.Exit(code)
 	case "sweep":
-		os.Exit(cmdSweep(os.Args[2:]))
+		code := cmdSweep(os.Args[2:])
+		cleanupScratch()
+		os.Exit(code)
 	default:
 		usage()
 	}
